@@ -122,6 +122,13 @@ def make_case(rnd, idx, layout, scen, long_spans=False):
         first = D(sy, 1, 1) + datetime.timedelta(days=rnd.randrange(1, (start - D(sy, 1, 1)).days + 1))
     ser = wxlib.gen_series(rnd, first, last, none=none, p_none=0.004, p_calm=0.35 if scen == "wind-height" else 0.1)
     c["windhi"] = None
+    c["order"] = None
+    if layout != 0 and rnd.random() < 0.6:
+        keys = ["date", "tmin", "tavg", "tmax", "prec", "rad", "wind", "rh"] if layout == 1 else ["date", "tmin", "tmax", "rad", "prec", "wind", "rh"]
+        rnd.shuffle(keys)
+        if rnd.random() < 0.4:
+            keys.remove("rad"); keys.insert(0, "rad")     # the optional radiation column is the first header column
+        c["order"] = keys
     if scen == "wind-height":
         c["windhi"] = rnd.choice(["3.5", "10", "10.0", "1.5"])
         c["etpot"] = rnd.choice([1, 2, 4])     # ETpot 3 converts g.WIND in place with a logarithm (after the echo): not in the model
@@ -204,7 +211,7 @@ def _run(ctx):
     for c in cases:
         p = "q%03d" % c["idx"]
         ser = c["series"]
-        wcfg = wxlib.write_weather(root, p, c["layout"], "F" + p, ser, skip_years=c["skip_years"], windhi=c.get("windhi"))
+        wcfg = wxlib.write_weather(root, p, c["layout"], "F" + p, ser, skip_years=c["skip_years"], windhi=c.get("windhi"), order=c.get("order"))
         cfg = dict(wcfg, WeatherFolder=p, WeatherNoneValue=c["none"], StartYear=c["anjahr"], EndDate=de(c["end"]),
                    AnnualOutputDate="%02d%02d" % (c["ann"].day, c["ann"].month), OutputIntervall=0,
                    ETpot=c["etpot"])
@@ -321,6 +328,10 @@ def correspond(ctx):
                              % {1: "result class", 2: "stored arrays / LoadYear values"}.get(code, code),
                              "layout": tc["layout"], "numheader": tc["nh"], "real_class": tres[i]["class"], "mutation": tc.get("mut"),
                              "file": tc["text"][:600]})
+    pm, pf = _run_preco(ctx)
+    for m_ in pm:
+        c.mismatches.append(m_)
+    c.cases += 6; c.nontrivial += 3 * (365 + 366); c.dist["preco_sweep_days"] = 3 * (365 + 366)
     c.cases += len(tcases) - abst
     c.nontrivial += sum(len(s_["cells"]) for o in tres for s_ in o.get("slots", []))
     cls = {}
@@ -339,6 +350,16 @@ def _run_tok(ctx):
         tres, restarts = toklib.run_real(ctx, root, tcases)
         _cache["tok"] = (tcases, tres, restarts)
     return _cache["tok"]
+
+
+def _run_preco(ctx):
+    """every day number of a 365- and a 366-day year through the three real readers with twelve different monthly factors"""
+    if "preco" not in _cache:
+        root = wxlib.make_tree(ctx, "c04")
+        pcases = toklib.preco_cases(root)
+        pres, _ = toklib.run_real(ctx, root, pcases, sub="precofiles")
+        _cache["preco"] = toklib.evaluate_preco(ctx, pcases, pres)
+    return _cache["preco"]
 
 
 def _describe(cs):
@@ -483,6 +504,9 @@ def oracle(ctx, search):
         fails.append(Fail(key="well-formed-file-misread:layout%d:%d" % (tc["layout"], tc["idx"]), what=what,
                           layout=tc["layout"], numheader=tc["nh"], file=tc["text"][:800]))
     ctx.extra["oracle_wellformed_lines_checked"] = nwf
+    pm, pf = _run_preco(ctx)
+    for key, what in pf:
+        fails.append(Fail(key=key, what=what))
     # malformed lines are outside the property's quantifier (decision of the lead): observed, never an alarm
     shifted, stats = toklib.oracle_malformed(tcases, tres)
     ctx.extra["observed_outside_property"] = {
